@@ -399,6 +399,9 @@ def binop(I, fr, op, l, r, node):
                    {"int": "recip-int", "recip-int": "int", None: None}[base[3]])
     if fr is not None and fr.fi.qualname in getattr(I, "watch_arith", ()) and isinstance(op, (ast.Div, ast.Mult)):
         I.emit("arith", fr, node, op=type(op).__name__, left=l, right=r)
+    if fr is not None and getattr(I, "watch_int", False) and isinstance(op, (ast.Sub, ast.Mult, ast.Pow)) and dtype == "int" \
+            and kind != K_SCALAR and any(_amplitude_int(I, x) for x in (l, r)):
+        I.emit("int-arith", fr, node, op=type(op).__name__, left=l, right=r)
     ext = None
     if isinstance(op, (ast.Mult, ast.Div)):
         if l.ext is not None and r.sign == S_POS and rscalar and r.ext is None:
@@ -1276,6 +1279,20 @@ def lib(*names, doc=""):
     return deco
 
 
+def _amplitude_int(I, x):
+    """an integer-typed *array of data* (carries amplitude: degree != 0 in some atom), as opposed to an index array"""
+    if x.kind != K_ARRAY or x.dtype not in ("int",):
+        return False
+    for at in I.atoms:
+        a = x.a(at)
+        if a[0] in ("zero", "const"):
+            continue
+        d = alg_degree(a)
+        if d is None or d == "any" or d != Exp(0):
+            return True
+    return False
+
+
 def call_lib(I, fr, name, args, kwargs, node):
     I.stats["libcalls"] += 1
     I.emit("lib-call", fr, node, name=name, args=list(args), kwargs={k: v for k, v in kwargs.items() if k != "__builtin__"})
@@ -1287,7 +1304,16 @@ def call_lib(I, fr, name, args, kwargs, node):
         return top_av(True, "no API row for " + name, I.atoms).replace(tags=tags_of(*args))
     C = Ctx(I, fr, name, args, kwargs, node)
     I.emit("api-row", fr, node, name=name)
-    return h(C)
+    res = h(C)
+    # out=<array>: the result is written into the caller-visible storage of `out` (ufuncs and reductions alike); rows that
+    # model it themselves return a value that already carries out's origin
+    out = kwargs.get("out")
+    if out is not None and out.kind in (K_ARRAY, K_LIST, K_TOP) and isinstance(res, AV) and not (res.origin and res.origin == out.origin):
+        keep = res.replace(origin=out.origin)
+        I.mutate(fr, out, node, "out=", lambda a, keep=keep: keep.replace(shape=a.shape if a.shape is not None else keep.shape), strong=True,
+                 value=res)
+        return keep
+    return res
 
 
 class Ctx(object):
@@ -1858,6 +1884,8 @@ def _trapz(C):
 @lib("numpy.diff", doc="first difference along axis: length n-1 (+1 per scalar prepend/append); linear")
 def _diff(C):
     v = C.num(0)
+    if getattr(C.I, "watch_int", False) and _amplitude_int(C.I, v):
+        C.I.emit("int-arith", C.fr, C.node, op="Sub", left=v, right=v)
     n = C.arg(1, "n")
     ax, known = axis_of(C, v, 2, default=-1)
     pre, app = C.arg(None, "prepend"), C.arg(None, "append")
@@ -1890,6 +1918,8 @@ def _diff(C):
 @lib("numpy.ediff1d", doc="flattened first difference with optional to_begin/to_end values; length n-1 + extras")
 def _ediff1d(C):
     v = C.num(0)
+    if getattr(C.I, "watch_int", False) and _amplitude_int(C.I, v):
+        C.I.emit("int-arith", C.fr, C.node, op="Sub", left=v, right=v)
     te, tb = C.arg(1, "to_end"), C.arg(2, "to_begin")
     d = v.shape[0] - 1 if (v.shape is not None and len(v.shape) == 1 and v.shape[0] is not None) else None
     extra = []
